@@ -311,6 +311,7 @@ def run_b(case):
         log = logs.setdefault(i, [])
         yield env.timeout(u['arrive'] + u['phase'] / 16)
         tries = u.get('retry', 0)
+        more = u.get('again', 0)
         first = True
         outside = case.get('catch') == 'outside'
 
@@ -374,6 +375,12 @@ def run_b(case):
                         again = handle(it)
             except Interrupt as it:
                 again = handle(it)
+            else:
+                if more > 0 and log[-1][0] == 'release':
+                    # the user comes back for another turn at once: its new request is issued in the activation that
+                    # released the slot, and queues behind (or, by priority, among) those who are waiting already
+                    more -= 1
+                    again = True
             first = False
             if not again:
                 break
@@ -412,6 +419,10 @@ def model_b(case):
     order = [0]
     gen = {i: 0 for i in range(len(us))}          # bumped when the user's current attempt ends by eviction
     retries = {i: u.get('retry', 0) for i, u in enumerate(us)}
+    again_left = {i: u.get('again', 0) for i, u in enumerate(us)}
+    if any(u.get('again') for u in us) and (kind == 'preemptive' or any(
+            u.get('again') and (u.get('burst', 1) != 1 or u.get('patience') is not None or u.get('style') or u['hold'] < 1) for u in us)):
+        raise InvalidCase('users that come back at once are plain users of a non-preemptive resource')
     want = {}        # i -> number of requests of the current attempt not yet granted
     evicted_now = {}  # time -> users evicted in that time step
 
@@ -509,7 +520,15 @@ def model_b(case):
                     logs[i].append(('gave_up', t))
             elif k == 'release':
                 logs[i].append(('release', t))
-                leave(i, t)
+                if again_left[i] > 0:
+                    # (as for a retry: the slot is free at once, the queue is served once the Release event is processed -
+                    #  after this activation, which first issues the user's next request)
+                    again_left[i] -= 1
+                    users[:] = [x for x in users if x['i'] != i]
+                    queue[:] = [q for q in queue if q['i'] != i]
+                    request(i, t, None)
+                else:
+                    leave(i, t)
             elif k == 'evicted':
                 gen[i] += 1
                 if retries[i] > 0 and (i, g) in extra:
@@ -640,6 +659,8 @@ def cases(draw, tier):
         elif mode == 'plain' and u['patience'] is None and draw(st.integers(0, 3)) == 0:
             u['style'] = 'explicit'
             u['twice'] = draw(st.booleans())
+        elif mode == 'plain' and fam != 'preemptive' and u['patience'] is None and u['hold'] >= 1 and draw(st.integers(0, 2)) == 0:
+            u['again'] = draw(st.integers(1, 2))       # comes back for another turn in the activation that released the slot
         users.append(u)
     cap = draw(st.integers(1, 3))
     if mode in ('retry', 'both'):
@@ -661,7 +682,8 @@ class C19(Check):
             'activation and re-request from their Interrupt handler after an eviction. Oracle: sequential reference model of '
             'the documented policies. non-trivial = a request had to wait, or was cancelled/preempted, or a filter matched '
             'nothing; distinct by sha1. Also: repeated cancels, explicit request()/release() users, and Containers with decimal '
-            'amounts (fill/drain aimed at the bounds) judged by invariants only.')
+            'amounts (fill/drain aimed at the bounds) judged by invariants only; users that come back for another turn in the activation '
+            'that released their slot.')
     budgets = {'quick': dict(examples=2400, procs=4), 'thorough': dict(examples=300000, procs=16)}
     level_text = ('Model-based history check: per request grant time and value, per-queue grant order, inspector observations '
                   '(level/items/users/queue lengths) between operations, Preempted details (by, usage_since, resource), '
